@@ -533,6 +533,56 @@ class Extractor:
                 break
         return toks
 
+    # ---- R15: destructuring assignment (unsupported by Verus) -> a `let` of fresh names followed by plain assignments
+    def normalise_destructuring_assign(self, toks):
+        """`(p0, p1, ..) = E;` at statement level, every p_i a side-effect-free place (identifier / field path) or `_`, is by
+        definition `{ let (t0, t1, ..) = E; p0 = t0; p1 = t1; .. }` (the right-hand side is evaluated first, the places are
+        assigned left to right).  The fresh names live in the enclosing block; they are numbered per occurrence."""
+        n_done = 0
+        while True:
+            hit = None
+            prev = None
+            for k, t in enumerate(toks):
+                if t.kind in ('ws', 'comment'): continue
+                if t.kind == 'punct' and t.text == '(' and (prev is None or (prev.kind == 'punct' and prev.text in ('{', '}', ';'))):
+                    try: c = rsx.match_close(toks, k)
+                    except RsxError: c = None
+                    if c is not None:
+                        e = rsx._skip_trivia(toks, c + 1, len(toks))
+                        e2 = rsx._skip_trivia(toks, e + 1, len(toks)) if e < len(toks) else len(toks)
+                        if e < len(toks) and toks[e].kind == 'punct' and toks[e].text == '=' and not (e2 < len(toks) and toks[e2].kind == 'punct' and toks[e2].text in ('=', '>') and e2 == e + 1):
+                            # split the places
+                            places = []; cur = []; ok = True; depth = 0
+                            for j in range(k + 1, c):
+                                tt = toks[j]
+                                if tt.kind in ('ws', 'comment'): continue
+                                if tt.kind == 'punct' and tt.text == ',' and depth == 0: places.append(cur); cur = []; continue
+                                if tt.kind == 'ident' or (tt.kind == 'punct' and tt.text == '.') or (tt.kind == 'lit' and tt.text.isdigit()): cur.append(tt.text)
+                                else: ok = False; break
+                            if cur: places.append(cur)
+                            if ok and len(places) >= 2 and all(p for p in places):
+                                # end of the statement: the `;` at bracket depth 0
+                                d = 0; semi = None
+                                for j in range(e + 1, len(toks)):
+                                    tt = toks[j]
+                                    if tt.kind != 'punct': continue
+                                    if tt.text in rsx.OPEN: d += 1
+                                    elif tt.text in rsx.CLOSE:
+                                        d -= 1
+                                        if d < 0: break
+                                    elif tt.text == ';' and d == 0: semi = j; break
+                                if semi is not None: hit = (k, c, e, semi, places)
+                    if hit: break
+                prev = t
+            if not hit: return toks
+            k, c, e, semi, places = hit
+            names = ['r15_%d_%d' % (n_done, i) for i in range(len(places))]
+            lhs = '(' + ', '.join('_' if p == ['_'] else n for p, n in zip(places, names)) + ')'
+            assigns = ' '.join('%s = %s;' % (''.join(p), n) for p, n in zip(places, names) if p != ['_'])
+            text = rsx.text_of(toks, 0, k) + 'let ' + lhs + ' =' + rsx.text_of(toks, e + 1, semi + 1) + ' ' + assigns + rsx.text_of(toks, semi + 1, len(toks))
+            toks = tokenize(text)
+            self.rule('R15'); n_done += 1
+
     # ---- R14: beta-reduction of NEW private helper functions (functions that are not in spec/baseline_fns.json)
     def helper_info(self, toks, it, container, mod):
         """describe a function that may be inlined at its call sites, or None.  Conditions: private, has a body, not in the
@@ -797,6 +847,7 @@ class Extractor:
         # ---------- R phase
         ftoks = self.expand_macros(ftoks) if self.macros else ftoks
         ftoks = self.apply_shims(ftoks)
+        ftoks = self.normalise_destructuring_assign(ftoks)
         if getattr(self, 'inline_plan', None) and name not in self.inline_plan:
             ftoks = self.inline_helpers(ftoks, self.inline_plan, self_name=name)
         ftoks = self.normalise_ref_patterns(ftoks)
